@@ -337,7 +337,7 @@ func describe() {
 	sort.Strings(ids)
 	for _, id := range ids {
 		p := props[id]
-		out = append(out, d{p.ID, p.Explain, p.NotDec, len(p.Controls)})
+		out = append(out, d{p.ID, p.Explain + commonExplain(p.ID), p.NotDec, len(p.Controls)})
 	}
 	b, _ := json.MarshalIndent(out, "", " ")
 	fmt.Println(string(b))
